@@ -87,6 +87,136 @@ fn c11_w_inlinee_found_reachable() {
     std::mem::forget(f);
 }
 
+use breakpad_symbols::verif::SourceLine;
+
+// ---- stand-in for HashMap<u32, String>::get: the two name tables of the symbol file, identified by address
+static mut FILES_MAP: usize = 0;
+static mut ORIGINS_MAP: usize = 0;
+static mut NAMES: Option<[String; 3]> = None; // "f.c", "a", "b"
+pub struct MapStub<K, V, S, A>(std::marker::PhantomData<(K, V, S, A)>);
+impl<K, V, S, A: std::alloc::Allocator> MapStub<K, V, S, A> {
+    pub fn get<'a, Q: ?Sized>(m: &'a std::collections::HashMap<K, V, S, A>, k: &Q) -> Option<&'a V>
+    where
+        K: std::borrow::Borrow<Q> + Eq + std::hash::Hash,
+        Q: std::hash::Hash + Eq,
+        S: std::hash::BuildHasher,
+    {
+        unsafe {
+            let key = *(k as *const Q as *const u32);
+            let names = (*std::ptr::addr_of!(NAMES)).as_ref().unwrap();
+            let which = m as *const std::collections::HashMap<K, V, S, A> as usize;
+            let r: Option<&String> = if which == FILES_MAP {
+                if key == 1 { Some(&names[0]) } else { None }
+            } else if which == ORIGINS_MAP {
+                if key == 7 { Some(&names[1]) } else if key == 8 { Some(&names[2]) } else { None }
+            } else {
+                None
+            };
+            std::mem::transmute_copy::<Option<&String>, Option<&'a V>>(&r)
+        }
+    }
+}
+
+struct RecInl {
+    ins: u64,
+    func: u32,
+    src: Option<(usize, u32, u64)>,
+    nsrc: u32,
+    inl: [(usize, usize, Option<u32>); 3],
+    ninl: usize,
+}
+impl FrameSymbolizer for RecInl {
+    fn get_instruction(&self) -> u64 { self.ins }
+    fn set_function(&mut self, _name: &str, _base: u64, _ps: u32) { self.func += 1; }
+    fn set_source_file(&mut self, f: &str, l: u32, b: u64) { self.src = Some((f.as_ptr() as usize, l, b)); self.nsrc += 1; }
+    fn add_inline_frame(&mut self, name: &str, file: Option<&str>, line: Option<u32>) {
+        if self.ninl < 3 {
+            self.inl[self.ninl] = (name.as_ptr() as usize, file.map_or(0, |f| f.as_ptr() as usize), line);
+        }
+        self.ninl += 1;
+    }
+}
+
+/// M: 16
+/// F: breakpad_symbols::SymbolFile::fill_symbol (source line, inline-frame emission and its location shift), Function::{get_outermost_sourceloc, get_inlinee_at_depth, get_innermost_sourceloc}
+/// I: one FUNC with one line record (file id 1 or 2, any line number) and two inlinee records (depth 0 and depth 1; address, size, call file 1 or 2, call line symbolic); the instruction anywhere in the function
+/// B: 1 FUNC, 1 line record, inline depth <= 2
+/// A: `HashMap::get` replaced by an oracle for the two name tables (file 1 = "f.c", file 2 unknown; inline origins 7 = "a", 8 = "b") - the hash maps themselves stay empty; HashMap::new's random keys replaced by constants; module base 0 (base arithmetic is decided by the other fill_symbol harnesses)
+/// O: the function is reported once; the source file is reported iff the outermost location's file id is known, with the call site of the depth-0 inline if one covers the address, else the line record; inline frames are emitted whether or not that file is known: none without a depth-0 inline; with inlines, each inline is reported with the location of the call made *inside* it and the innermost one with the line record's location (line 0 reported as unknown)
+#[kani::proof]
+#[kani::unwind(6)]
+#[kani::stub(std::hash::RandomState::new, fixed_random_state)]
+#[kani::stub(std::collections::HashMap::get, MapStub::get)]
+fn c11_q_fill_symbol_lines_and_inlines() {
+    unsafe { NAMES = Some([String::from("f.c"), String::from("a"), String::from("b")]); }
+    let names = unsafe { (*std::ptr::addr_of!(NAMES)).as_ref().unwrap() };
+    let (pf, pa, pb) = (names[0].as_ptr() as usize, names[1].as_ptr() as usize, names[2].as_ptr() as usize);
+    // one FUNC [0x100, 0x200) with one line record covering it
+    let lf: u32 = kani::any();
+    let ll: u32 = kani::any();
+    kani::assume(lf == 1 || lf == 2);
+    let lines = RangeMap::try_from_iter(vec![(Range::new(0x100u64, 0x1ffu64), SourceLine { address: 0x100, size: 0x100, file: lf, line: ll })]).unwrap();
+    // up to two inlinee records: depth 0 (origin 7) and depth 1 (origin 8), symbolic ranges
+    let (a0, s0, cf0, cl0): (u64, u32, u32, u32) = (kani::any(), kani::any(), kani::any(), kani::any());
+    let (a1, s1, cf1, cl1): (u64, u32, u32, u32) = (kani::any(), kani::any(), kani::any(), kani::any());
+    kani::assume(a0 < 0x1000 && a1 < 0x1000 && s0 < 0x1000 && s1 < 0x1000);
+    kani::assume((cf0 == 1 || cf0 == 2) && (cf1 == 1 || cf1 == 2));
+    let inlinees = vec![
+        Inlinee { depth: 0, address: a0, size: s0, call_file: cf0, call_line: cl0, origin_id: 7 },
+        Inlinee { depth: 1, address: a1, size: s1, call_file: cf1, call_line: cl1, origin_id: 8 },
+    ];
+    let f = Function { address: 0x100, size: 0x100, parameter_size: 0, name: String::new(), lines, inlinees };
+    let sf = SymbolFile {
+        module_id: String::new(),
+        debug_file: String::new(),
+        files: std::collections::HashMap::new(),
+        publics: Vec::new(),
+        functions: RangeMap::try_from_iter(vec![(Range::new(0x100u64, 0x1ffu64), f)]).unwrap(),
+        inline_origins: std::collections::HashMap::new(),
+        cfi_stack_info: RangeMap::new(),
+        win_stack_framedata_info: RangeMap::new(),
+        win_stack_fpo_info: RangeMap::new(),
+        url: None,
+        ambiguities_repaired: 0,
+        ambiguities_discarded: 0,
+        corruptions_discarded: 0,
+        cfi_eval_corruptions: 0,
+    };
+    unsafe {
+        FILES_MAP = &sf.files as *const _ as usize;
+        ORIGINS_MAP = &sf.inline_origins as *const _ as usize;
+    }
+    let module = minidump::MinidumpModule::new(0, 0x1000, "m");
+    let mut fr = RecInl { ins: kani::any(), func: 0, src: None, nsrc: 0, inl: [(0, 0, None); 3], ninl: 0 };
+    kani::assume(fr.ins >= 0x100 && fr.ins <= 0x1ff);
+    let addr = fr.ins;
+    sf.fill_symbol(&module, &mut fr);
+    assert!(fr.func == 1);
+    let d0 = a0 <= addr && addr - a0 < s0 as u64;
+    let d1 = a1 <= addr && addr - a1 < s1 as u64;
+    let file = |id: u32| if id == 1 { pf } else { 0 };
+    // outermost location: the call site of the depth-0 inline if there is one, else the line record
+    let (of, ol, oa) = if d0 { (cf0, cl0, a0) } else { (lf, ll, 0x100) };
+    if of == 1 {
+        assert!(fr.nsrc == 1 && fr.src == Some((pf, ol, oa)));
+    } else {
+        assert!(fr.nsrc == 0);
+    }
+    let innermost_line = if ll != 0 { Some(ll) } else { None };
+    if !d0 {
+        assert!(fr.ninl == 0);
+    } else if !d1 {
+        // one inline: it is reported with the innermost (line-record) location
+        assert!(fr.ninl == 1 && fr.inl[0] == (pa, file(lf), innermost_line));
+    } else {
+        // two inlines: each is reported with the location of the call *inside* it
+        assert!(fr.ninl == 2 && fr.inl[0] == (pa, file(cf1), Some(cl1)) && fr.inl[1] == (pb, file(lf), innermost_line));
+    }
+    kani::cover!(d0 && d1 && of == 2, "two inlines although the outermost file is unknown");
+    std::mem::forget(sf);
+    std::mem::forget(module);
+}
+
 #[path = "../playback/c11_symbolication.rs"]
 mod playback;
 
